@@ -348,17 +348,18 @@ func vkMsgs(step map[string]interface{}) []*Message {
 // "append as the current leader", so its leader epoch is never below the
 // latest epoch the log knows (a leader does not append with a stale epoch).
 func (r *vkRun) vkEffective(step map[string]interface{}) map[string]interface{} {
-	if vStr(step, "a") != "Append" {
+	if a := vStr(step, "a"); a != "Append" && a != "AppendSet" {
 		return step
 	}
 	latest := int64(r.l.LastLeaderEpoch())
-	out := map[string]interface{}{"a": "Append"}
+	out := map[string]interface{}{"a": vStr(step, "a")}
 	recs := []interface{}{}
 	for _, sr := range vList(step, "recs") {
 		ep := vInt(sr, "ep")
 		if ep < latest {
 			ep = latest
 		}
+		latest = ep // epochs never decrease inside a batch either
 		recs = append(recs, map[string]interface{}{"ep": float64(ep), "val": sr["val"], "key": sr["key"]})
 	}
 	out["recs"] = recs
@@ -384,6 +385,17 @@ func (r *vkRun) exec(in map[string]interface{}) (step map[string]interface{}, ob
 	case "Append":
 		var offs []int64
 		offs, err = r.l.Append(vkMsgs(step))
+		if offs != nil {
+			obs.Ret = offs
+		}
+	case "AppendSet":
+		// replicated path: the message set carries offsets and epochs
+		ms, _, e2 := newMessageSetFromProto(r.l.NewestOffset()+1, 0, vkMsgs(step), false)
+		if e2 != nil {
+			panic(e2)
+		}
+		var offs []int64
+		offs, err = r.l.AppendMessageSet(ms)
 		if offs != nil {
 			obs.Ret = offs
 		}
